@@ -328,7 +328,7 @@ func TestWorker(t *testing.T) {
 			scfg.Pin = v.Pin
 			if o := runOnce(t, e, ReplayChoices(v.Trace), &scfg); o.Class == v.Class {
 				cfg.Strict = true
-			} else if strings.HasSuffix(v.Class, "/alloc") || strings.HasSuffix(v.Class, "/runaway") || strings.HasSuffix(v.Class, "/no-progress") {
+			} else if strings.HasSuffix(v.Class, "/alloc") || strings.HasSuffix(v.Class, "/runaway") || strings.HasSuffix(v.Class, "/no-progress") || strings.HasSuffix(v.Class, "/leak") {
 				budget = 1
 			}
 		}
